@@ -85,6 +85,21 @@ class Worker:
                 result.status(test_id="w%d.t%d" % (self.i, j), test_status="success", test_tags=None,
                               runnable=True, file_name=None, file_bytes=None, eof=False, mime_type=None,
                               route_code=None, timestamp=None)
+            elif self.spec.get("tag_churn"):
+                # a test that tags itself, reports, and then changes its tags again before it is stopped (a fixture
+                # cleaning up): the event it emitted for its outcome carries the tags current THEN
+                t = testtools.PlaceHolder("w%d.t%d" % (self.i, j))
+                result.startTest(t)
+                result.tags({"own%d" % j}, set())
+                outcome = ["addSuccess", "addError", "addSkip"][(self.i + j) % 3]
+                if outcome == "addSuccess":
+                    result.addSuccess(t)
+                elif outcome == "addSkip":
+                    result.addSkip(t, "why")
+                else:
+                    result.addError(t, details={})
+                result.tags({"late"}, {"own%d" % j})
+                result.stopTest(t)
             else:
                 testtools.PlaceHolder("w%d.t%d" % (self.i, j),
                                       outcome=["addSuccess", "addError", "addSkip"][(self.i + j) % 3]).run(result)
@@ -389,6 +404,10 @@ def check(ctx, case, sch, log, runlog, created, exc, yielded, shim, target, deta
                 told.append((t.name, res.stop_calls >= 1 and res.shouldStop is True))
         ctx.check(all(ok for _, ok in told), "abort.started-workers-told-to-stop",
                   lambda: {"told": told, "abort": abort, "finished before abort": snap, **detail()})
+        if kind == "cts" and told and not case.get("wrap_own_stop") and case.get("target") != "nostop":
+            # ... through the caller's result's own stop() (a result may override it - that is how it learns)
+            ctx.check(any(e.name == "stop" for e in log.events), "abort.started-workers-told-to-stop",
+                      lambda: {"the caller's result never had stop() called": True, "told": told, **detail()})
         ctx.check(len({task for _, task in runs}) == len(runs), "worker.run-once-on-own-thread",
                   lambda: {"runs": runs, **detail()})
         return
@@ -477,6 +496,15 @@ def check(ctx, case, sch, log, runlog, created, exc, yielded, shim, target, deta
                 want = want[:-2]  # broken runners share one id under a shared route code: counted below
             ctx.check(mine == want, "events.exactly-once-in-worker-order",
                       lambda: {"worker": i, "got": mine, "want": want, **detail()})
+            if spec.get("tag_churn"):
+                finals = [(p["test_id"], sorted(p["test_tags"] or ())) for p in ev
+                          if p["route_code"] == code_i and p["test_id"].startswith("w%d." % i)
+                          and p["test_status"] in ("success", "fail", "skip")]
+                wanted = [(tid, [] if (spec.get("direct") and int(tid.split(".t")[1]) % 2) else ["own%s" % tid.split(".t")[1]])
+                          for tid, _ in finals]        # (a 'direct' worker's odd tests are raw events without tags)
+                ctx.check(finals == wanted, "events.exactly-once-in-worker-order",
+                          lambda: {"worker": i, "final events reached the caller with tags": finals,
+                                   "emitted with": wanted, **detail()})
             if r is not None and shared:
                 n_fail = sum(1 for p in ev if p["test_id"] == "broken-runner-'%s'" % code_i
                              and p["test_status"] == "fail")
@@ -622,6 +650,8 @@ def run(ctx):
         workers = []
         for _ in range(rng.randint(1, 4)):
             w = {"tests": rng.randint(0, 3)}
+            if kind == "stream" and rng.random() < 0.25:
+                w["tag_churn"] = True
             if rng.random() < 0.2:
                 w["raise_at"] = rng.randint(0, w["tests"])
                 if rng.random() < 0.4:
